@@ -1321,6 +1321,9 @@ def arr_setitem(it, a, idx, value, node):
         else:
             raise Unsupported("array store column selector", node)
         terms_ = _bcast_cols(value, len(ks), node)
+        nd_ = getattr(a, "alloc_dtype", None)
+        if nd_ is not None:
+            terms_ = [T("narrow", t, const(nd_)) for t in terms_]  # stored into an array of a narrower type: converted on the way in
         for k, t in zip(ks, terms_):
             a.cols[k] = mk("ite", mask, t, a.cols[k]) if mask is not None else t
         it.record("store", "array", [a, idx, value], {}, node)
